@@ -1616,6 +1616,7 @@ func (dsc *dataStoreCommand) lmove(srcKeyName, destKeyName string, srcLeft, dest
 		// remove the key (and its expiry) before the element is pushed back
 		uk.elements = 1
 		output.data = respBulkString(srcList.head.element)
+		dsc.keyModifiedUnlocked(srcKeyName)
 		return
 	}
 
